@@ -13,7 +13,7 @@ from vfw import scen_gen, scenario
 from vfw.core import Violation
 
 PROPERTY = "C13"
-SIZES = {"quick": 1600, "thorough": 60000}
+SIZES = {"quick": 4800, "thorough": 60000}
 RULE = (
     "Hypothesis draws a scenario from the shared corpus (simple grids with metrics, face-connected grids with scalar and vector "
     "calls, multi-axis grid ufuncs, signature pairs, COMODO/SGRID autoparsing, metric partitions, transform) written with "
@@ -158,6 +158,18 @@ def renaming_for(draw, toks, reserved=(), squeeze=True):
             final = (cand[: 12 - len(str(k))] + str(k))
         names.append(final)
         mapping[t] = final
+    # two names of one namespace where one is contained in the other (`'z' in 'zl'` is true for strings as well as for lists)
+    for space in ("axis", "ds"):
+        mine = [t for t, sp in toks.items() if sp == space]
+        if len(mine) >= 2 and draw(st.integers(0, 3)) == 0:
+            a, b = draw(st.permutations(mine))[:2]
+            base = mapping[a]
+            form = draw(st.sampled_from(["suffixed", "prefixed", "wrapped", "doubled"]))
+            cand = {"suffixed": base + draw(st.sampled_from(["l", "_g", "c", "1"])), "prefixed": draw(st.sampled_from(["n", "g", "x"])) + base,
+                    "wrapped": "a" + base + "b", "doubled": base + base}[form][:14]
+            taken = [mapping[t] for t in mine if t != b] + (list(reserved) if space == "axis" else [])
+            if cand.isidentifier() and cand not in taken and cand not in POSITION_WORDS and xarray_safe(cand, squeeze):
+                mapping[b] = cand
     return mapping
 
 
